@@ -44,6 +44,7 @@ def gen(rng, tier, i):
     p.meta['keep_cycles'] = 2      # the model knows the acting user by its tag: a plan without the naming step says nothing
     tags = ['u0']
     nt = 0
+    vnames = set()
     n = rng.randint(3, 25 if tier == 'quick' else 60)
     for k in range(n):
         actor = rng.choice(tags)
@@ -54,6 +55,16 @@ def gen(rng, tier, i):
         elif r < 0.32:
             nt += 1; t = 't%d' % nt
             op = 'uload %s %s' % (rng.choice(FILES), t); tags.append(t)
+        elif r < 0.34 and rng.random() < 0.5:
+            # virtual objects: the master's compile_object() serves a name that has no file
+            vn = '/v/x%d' % rng.randint(1, 3)
+            if vn not in vnames:
+                vnames.add(vn); p.cycle(send(0, 'do uvo %s;uids\r\n' % vn))
+            if rng.random() < 0.6:
+                nt += 1; t = 't%d' % nt
+                op = 'uload %s %s' % (vn, t); tags.append(t)
+            else:
+                op = 'ucall %s %s' % (vn, rng.choice(('co', 'aco', 'move', 'tellroom', 'find1')))
         elif r < 0.37:
             op = 'ucall %s %s' % (rng.choice(FILES), rng.choice(('co', 'co', 'aco', 'move', 'tellroom', 'filter', 'mapstr', 'message', 'find1')))
         elif r < 0.42:
@@ -93,6 +104,7 @@ def check(plan, res):
     pend = None                          # creation window
     window = []                          # records inside the current command
     last_uids = None
+    vobjs = {}                           # virtual name -> model key of the object that answers to it
     stale = set()                        # keys whose model state is unknown after an anomalous creation (judged once)
 
     def creation_rules(creator_key, ans):
@@ -134,16 +146,28 @@ def check(plan, res):
                         'no-euid-creation/' + pend['op'])
                 if pend['op'] in ('uclone',) and ok:
                     bad('no-euid-creation', '%s with euid 0 cloned %s' % (ck, pend['file']), 'no-euid-creation/' + pend['op'])
-                if pend['op'] in ('uload', 'ucall') and ok and pend['file'] not in model:
+                if pend['op'] in ('uload', 'ucall') and ok and pend['file'] not in model and pend['file'] not in vobjs:
                     bad('no-euid-creation', '%s with euid 0 loaded %s' % (ck, pend['file']), 'no-euid-creation/' + pend['op'])
                 if pend['op'] == 'uload' and ok and pend['file'] in model:
                     model[pend['tag']] = model[pend['file']]      # load_object of a loaded object... is refused too; handled below by dump
+                if pend['op'] == 'uload' and ok and pend['file'] in vobjs and vobjs[pend['file']] in model:
+                    model[pend['tag']] = model[vobjs[pend['file']]]     # finding the object that already answers to the virtual name creates nothing
                 pend['refused'] = True
             else:
                 # every creator_file question is one object being created, in order; apply the rules
+                virt = pend['file'].startswith('/v/')
                 for (name, ans) in pend['cf']:
                     base = name.split('#')[0]
                     key = pend['tag'] if ('#' in name and base == pend['file']) else name
+                    if virt and base == '/uobj':
+                        # the object behind a virtual name is cloned by the master (who is its creator, also of the blueprint
+                        # it loads on the way), then renamed; a load_object() gives it the tag
+                        key = name
+                        if pend['op'] == 'uload' and '#' in name: key = pend['tag']
+                        if ans == 'E': stale.add(key); continue
+                        model[key] = creation_rules('M', ans); stale.discard(key); fname[name] = key
+                        if '#' in name: vobjs[pend['file']] = key
+                        continue
                     if ans == 'E':
                         stale.add(key); continue
                     model[key] = creation_rules(ck, ans)
@@ -152,6 +176,9 @@ def check(plan, res):
                 if pend['op'] == 'uload' and ok:
                     # the tag names the blueprint itself
                     if pend['file'] in model: model[pend['tag']] = model[pend['file']]
+                    # ... or the object that already answers to this virtual name
+                    if virt and not pend['cf'] and pend['file'] in vobjs and vobjs[pend['file']] in model:
+                        model[pend['tag']] = model[vobjs[pend['file']]]
             pend = None
         elif w[0] == 'USETEUID':
             me, val, ret, er = w[1], w[2], w[3][4:], w[4][4:]
